@@ -507,7 +507,33 @@ func runC19(r *core.Run) {
 		"DECLARE f FUNCTION (@x) AS BEGIN COMMIT; RETURN @x; END; INSERT INTO t VALUES (f(5), 'w'); ROLLBACK;",
 		"DECLARE f FUNCTION (@x) AS BEGIN ROLLBACK; RETURN @x; END; SELECT f(id) FROM t;",
 		"DECLARE f FUNCTION (@x) AS BEGIN DECLARE c CURSOR FOR SELECT id FROM t; OPEN c; RETURN @x; END; SELECT f(id) FROM t WHERE f(id) > 0 ORDER BY f(id);")
-	classes, errs := isolatedExec(r, stmts, map[string]string{"t.csv": "id,v\n1,a\n2,b\n3,\n"})
+	// FORMAT: every verb under flags, widths and precisions shorter and longer than the value, over values of every class
+	for _, verb := range []string{"s", "q", "i", "T", "d", "f", "e", "b", "o", "x", "X", "%"} {
+		for _, mod := range []string{"", "5", "-5", "05", "+", " ", ".0", ".1", ".5", "8.3", "-8.9", ".99", "300", ".300"} {
+			for _, arg := range []string{"'ab'", "'あいう'", "NULL", "12", "-1.5", "TRUE", "DATETIME('2012-02-03')", "''"} {
+				stmts = append(stmts, "SELECT FORMAT('%"+mod+verb+"', "+arg+") AS r;")
+			}
+		}
+	}
+	stmts = append(stmts, "SELECT FORMAT('%99999999999d', NULL) AS r;", "SELECT FORMAT('%.99999999999s', 'a') AS r;", "SELECT FORMAT('%s') AS r;", "SELECT FORMAT('%s %s', 1) AS r;", "SELECT FORMAT('%', 1) AS r;", "SELECT FORMAT('%5', 1) AS r;",
+		"PRINTF '%.5s' USING 'ab';", "PRINTF '%9T|%-9q|' USING 1, 'x';")
+	// statements that take a statement text or a name: given something else
+	for _, a := range []string{"123", "NULL", "TRUE", "1.5", "DATETIME('2012-02-03')", "''", "' '", "';'", "'SELECT'", "'EXECUTE \\'SELECT 1\\''"} {
+		stmts = append(stmts, "EXECUTE "+a+";", "PREPARE p FROM "+a+";", "VAR @s := "+a+"; EXECUTE @s;", "SOURCE "+a+";", "CHDIR "+a+";", "TRIGGER ERROR "+a+";", "TRIGGER ERROR 300 "+a+";", "ECHO "+a+";", "SET @@FORMAT TO "+a+";", "SET @@CPU TO "+a+";", "SET @%VERIF_X TO "+a+";")
+	}
+	// an aggregate query over a table without records: every function in the select list next to COUNT(*)
+	for _, n := range names {
+		stmts = append(stmts, "SELECT COUNT(*), "+n+"(v) FROM e;", "SELECT COUNT(*), "+n+"() FROM e;", "SELECT COUNT(*), "+n+"(v, id) FROM e;", "SELECT "+n+"(v) FROM e GROUP BY id;")
+	}
+	for _, x := range []string{"JSON_OBJECT(v)", "JSON_OBJECT()", "JSON_OBJECT(id, v)", "COALESCE(v, 1)", "IF(v, 1, 2)", "NULLIF(v, 1)", "IFNULL(v, 1)", "CASE WHEN v THEN 1 END", "CASE v WHEN 1 THEN 2 END", "v + 1", "v || 'x'", "v IS NULL",
+		"v BETWEEN 1 AND 2", "v IN (1, 2)", "v LIKE 'a%'", "(SELECT 1)", "(v, id) = (1, 2)", "EXISTS (SELECT 1)", "v = ANY (SELECT 1)", "@@CPU", "*", "e.*", "ROW_NUMBER() OVER ()", "SUM(id) OVER ()", "LISTAGG(v)", "JSON_AGG(v)", "MEDIAN(v)", "COUNT(DISTINCT v)"} {
+		stmts = append(stmts, "SELECT COUNT(*), "+x+" FROM e;", "SELECT "+x+" FROM e HAVING COUNT(*) = 0;", "SELECT COUNT(*) FROM e HAVING "+x+" IS NULL;", "SELECT COUNT(*) FROM e ORDER BY "+x+";")
+	}
+	// LIKE: patterns with many wildcards over a text that almost matches (the work must stay bounded)
+	for _, pat := range []string{"%a%a%a%a%a%a%a%a%a%a%a%a%a%ab", "%a_a%a_a%a_a%a_a%a_a%a_a%b", "%%%%%%%%%%%%%%%%%%%%%%%%b", "_%_%_%_%_%_%_%_%_%_%_%_%_%_%b"} {
+		stmts = append(stmts, "SELECT 'aaaaaaaaaaaaaaaaaaaaaaaaaaaaaaaaaaaaaaaaaaaaaaaaaaaaaaaaaaaa' LIKE '"+pat+"' AS r;")
+	}
+	classes, errs := isolatedExec(r, stmts, map[string]string{"t.csv": "id,v\n1,a\n2,b\n3,\n", "e.csv": "id,v\n"})
 	for i, s := range stmts {
 		r.Distinct(s)
 		fn := s
@@ -651,6 +677,48 @@ func runC19(r *core.Run) {
 			cl = "fatal"
 		}
 		add(map[string]interface{}{"kind": "load", "class": cl, "rectangular": c == "ok" || c == "fatal" || c == "unreadable" || c == "write-refused"}, szdesc[i], "load-size:"+szjobs[i].fmtn+":"+szjobs[i].enc+":"+c)
+	}
+	// ---- (f) the sub-commands of the binary (calc, fields, syntax) with arguments that are not what they expect ----
+	{
+		type sj struct {
+			args  []string
+			stdin string
+		}
+		var sjs []sj
+		for _, a := range []string{"1 + 1", "c1", "1; --", "1 UNION SELECT 2", "", ")", "(", "'", "1 FROM t", "*", "c1, c2", "@a := 1", "SUM(c1)", "c1 -- x", "1 /* x", "(SELECT 1)", "c99", "NULL", "1;SELECT 2"} {
+			sjs = append(sjs, sj{[]string{"calc", a}, "7,8\n"}, sj{[]string{"calc", a}, ""})
+		}
+		for _, a := range []string{"t", "`t.csv`", "(SELECT 1) x", "t, t", "t JOIN t u ON TRUE", "nosuch", "", ")", "STDIN", "t; SELECT 1", "t --", "CSV(',', `t.csv`)", "t.csv x y", "'t'", "1", "*"} {
+			sjs = append(sjs, sj{[]string{"fields", a}, ""}, sj{[]string{"fields", a}, "a,b\n1,2\n"})
+		}
+		for _, a := range [][]string{{"syntax"}, {"syntax", "select"}, {"syntax", "select", "clause"}, {"syntax", ""}, {"syntax", "("}, {"syntax", "nosuchword"}, {"syntax", "\\"}, {"calc"}, {"fields"}, {"calc", "1", "2"}, {"nosuchcommand"}, {"check-update", "x"}} {
+			sjs = append(sjs, sj{a, ""})
+		}
+		scl := make([]string, len(sjs))
+		sds := make([]string, len(sjs))
+		ser := make([]string, len(sjs))
+		core.Parallel(len(sjs), 8, func(i int) {
+			dir := r.Dir(fmt.Sprintf("sub%d", i))
+			defer os.RemoveAll(dir)
+			writeFile(filepath.Join(dir, "t.csv"), "id,v\n1,a\n")
+			args := append([]string{"--repository", dir}, sjs[i].args...)
+			if sjs[i].args[0] == "check-update" {
+				scl[i], sds[i] = "ok", "skipped (needs the network)"
+				return
+			}
+			rs := sut.RunBin(sut.BinOpts{Csvq: r.Csvq, Dir: dir, Args: args, Stdin: sjs[i].stdin, Timeout: 20 * time.Second})
+			scl[i] = "ok"
+			if rs.IsFatal() || rs.Signaled || rs.Exit == 2 && strings.Contains(rs.Stderr, "panic") {
+				scl[i] = "fatal"
+			}
+			sds[i] = fmt.Sprintf("csvq %q (stdin %q): exit %d %s", sjs[i].args, sjs[i].stdin, rs.Exit, firstLine(rs.Stderr))
+			ser[i] = firstLine(rs.Stderr)
+		})
+		for i := range sjs {
+			r.Distinct("sub:" + fmt.Sprint(sjs[i]))
+			add(map[string]interface{}{"kind": "nofatal", "class": scl[i]}, sds[i], "internal-failure:subcommand:"+sjs[i].args[0]+":"+failKind(ser[i]))
+		}
+		r.Coverage["subcommand_runs"] = len(sjs)
 	}
 
 	// ---- TLC judges every event ----
